@@ -30,7 +30,7 @@ import (
 )
 
 type serverApp struct {
-	Root                  string           `help:"Root directory with games." type:"existingdir" default:"." env:"PS3NETSRV_ROOT"`
+	Root                  string           `help:"Root directory with games." type:"path" default:"." env:"PS3NETSRV_ROOT"`
 	ListenAddr            string           `help:"Main server listen address." default:"0.0.0.0:38008" env:"PS3NETSRV_LISTEN_ADDR"`
 	Debug                 bool             `help:"Enable debug log messages." env:"PS3NETSRV_DEBUG"`
 	JSONLog               bool             `help:"Output log messages in json format." env:"PS3NETSRV_JSON_LOG"`
@@ -41,6 +41,21 @@ type serverApp struct {
 	AllowWrite            bool             `help:"Allow writing/modifying filesystem operations." env:"PS3NETSRV_ALLOW_WRITE"`
 	// default value found during debugging
 	BufferSize int64 `help:"Size of buffer for data transfer. Change it only if you know what you doing." type:"binsize" default:"64k" env:"PS3NETSRV_BUFFER_SIZE"`
+}
+
+// AfterApply validates settings when all configuration sources (flags, environment, config files) are applied.
+// Root existence is checked here because "existingdir" mapper skips values provided by config file.
+func (sapp *serverApp) AfterApply() error {
+	stat, err := os.Stat(sapp.Root)
+	if err != nil {
+		return fmt.Errorf("root: %w", err)
+	}
+
+	if !stat.IsDir() {
+		return fmt.Errorf("root: %q exists but is not a directory", sapp.Root)
+	}
+
+	return nil
 }
 
 func (sapp *serverApp) setupLogger() {
